@@ -26,19 +26,23 @@ View == <<objs, files, last, ncreate>>
 
 Abs(x) == IF x < 0 THEN -x ELSE x
 All == Focus = "all"
-Der == Focus = "derive"      \* a small alphabet around replaced time axes and derived frames (C17), enumerated exhaustively
-AD == All \/ Der
+Met == Focus = "meta"        \* a small alphabet around the per-frame bookkeeping dictionary: frames created with a drift rate in
+                             \* it, derived frames, add_metadata on parents and children, de-drifting "from metadata"
+Der == Focus \in {"derive", "meta"}      \* a small alphabet around replaced time axes and derived frames (C17), enumerated exhaustively
+AD == All \/ Focus = "derive"
 Ident(i, w) == 1000 * i + w                                  \* row i (1-based), world channel w
 
 NewFrame(F, T, asc, lo, t0, src) ==
     [F |-> F, T |-> T, asc |-> asc, lo |-> lo, t0 |-> t0, src |-> src, wf |-> FALSE, tsoff |-> 0, tsgap |-> 0, reg0 |-> TRUE,
+     meta |-> IF Met THEN 2 ELSE 99,     \* drift rate (quarter channels per row) in the frame's OWN metadata dictionary, 99 = none
+
      data |-> [i \in 1..T |-> [j \in 1..F |-> Ident(i, lo + j - 1)]]]
 
 (* round(n / 4) to the nearest integer, ties to even (numpy) *)
 RoundQ(n) == LET f == n \div 4  r == n % 4 IN
              IF r < 2 THEN f ELSE IF r > 2 THEN f + 1 ELSE IF f % 2 = 0 THEN f ELSE f + 1
 
-Proj(f) == [F |-> f.F, T |-> f.T, asc |-> f.asc, lo |-> f.lo, t0 |-> f.t0, src |-> f.src, data |-> f.data, tsoff |-> f.tsoff, tsgap |-> f.tsgap, reg0 |-> f.reg0]
+Proj(f) == [F |-> f.F, T |-> f.T, asc |-> f.asc, lo |-> f.lo, t0 |-> f.t0, src |-> f.src, data |-> f.data, tsoff |-> f.tsoff, tsgap |-> f.tsgap, reg0 |-> f.reg0, meta |-> f.meta]
 
 Active == Len(hist) < MaxOps
 Room == Len(objs) < MaxObjs
@@ -56,7 +60,7 @@ Create(F, T, asc, lo, route) ==
     /\ LogC([name |-> "Create", F |-> F, T |-> T, asc |-> asc, lo |-> lo, route |-> route], [st |-> "ok"])
 
 GetWaterfall(o) ==
-    /\ (~Der \/ o = 1) /\ Active /\ o \in 1..Len(objs)
+    /\ (~Der \/ o = 1) /\ ~Met /\ Active /\ o \in 1..Len(objs)
     /\ objs' = [objs EXCEPT ![o].wf = TRUE]
     /\ last' = [st |-> "ok"] /\ UNCHANGED files
     /\ Log([name |-> "GetWaterfall", o |-> o], [st |-> "ok"])
@@ -116,9 +120,9 @@ Slice(o, l, r, form) ==
 (* de-drift by q quarter-channels per row (signed) *)
 MaxOffset(f, q) == RoundQ(Abs(q) * f.T)
 Offset(q, i) == RoundQ(Abs(q) * i)                            \* row i is 0-based
-Dedrift(o, q) ==
-    /\ AD /\ Active /\ Room /\ o \in 1..Len(objs)
-    /\ LET f == objs[o]  m == MaxOffset(f, q)  a == [name |-> "Dedrift", o |-> o, q |-> q] IN
+DedriftAs(o, q, nm) ==
+    /\ (AD \/ Met) /\ Active /\ Room /\ o \in 1..Len(objs)
+    /\ LET f == objs[o]  m == MaxOffset(f, q)  a == [name |-> nm, o |-> o, q |-> q] IN
        IF m >= f.F
        THEN /\ objs' = objs /\ last' = [st |-> "ValueError"] /\ Log(a, [st |-> "ValueError"])
        ELSE LET W == f.F - m
@@ -127,6 +131,17 @@ Dedrift(o, q) ==
                                !.data = [i \in 1..f.T |-> [j \in 1..W |-> f.data[i][start(i - 1) + j]]]] IN
             /\ objs' = Append(objs, g) /\ last' = [st |-> "ok"] /\ Log(a, [st |-> "ok"])
     /\ UNCHANGED files
+
+Dedrift(o, q) == ~Met /\ DedriftAs(o, q, "Dedrift")
+(* dedrift(frame) without a rate: the rate the frame's own dictionary holds (inherited from the parent at derivation,
+   replaced by the frame's own add_metadata -- never by a call on another frame) *)
+DedriftMeta(o) == Met /\ o \in 1..Len(objs) /\ objs[o].meta # 99 /\ DedriftAs(o, objs[o].meta, "DedriftMeta")
+(* frame.add_metadata({"drift_rate": q}) *)
+SetMeta(o, q) ==
+    /\ Met /\ Active /\ o \in 1..Len(objs) /\ objs[o].meta # q
+    /\ objs' = [objs EXCEPT ![o].meta = q]
+    /\ last' = [st |-> "ok"] /\ UNCHANGED files
+    /\ Log([name |-> "SetMeta", o |-> o, q |-> q], [st |-> "ok"])
 
 (* integration: per-column (axis t) or per-row (axis f) sums; the mean is sum / count *)
 RECURSIVE SumSeq(_)
@@ -161,7 +176,7 @@ SaveFail(o, fmt) ==
 
 Load(k) ==
     /\ ~Der /\ Active /\ Room /\ k \in 1..Len(files)
-    /\ objs' = Append(objs, [files[k].frame EXCEPT !.tsoff = 0, !.tsgap = 0] @@ [wf |-> TRUE])
+    /\ objs' = Append(objs, [files[k].frame EXCEPT !.tsoff = 0, !.tsgap = 0, !.meta = 99] @@ [wf |-> TRUE])
     /\ last' = [st |-> "ok"] /\ UNCHANGED files
     /\ Log([name |-> "Load", file |-> k], [st |-> "ok"])
 
@@ -178,7 +193,7 @@ LoadSub(k, l, r) ==
 LoadT(k, a, b) ==
     /\ ~Der /\ Active /\ Room /\ k \in 1..Len(files) /\ 0 <= a /\ a < b /\ b <= files[k].frame.T
     /\ LET f == files[k].frame
-           g == [f EXCEPT !.T = b - a, !.tsoff = 0, !.tsgap = 0, !.data = [i \in 1..b - a |-> f.data[a + i]],
+           g == [f EXCEPT !.T = b - a, !.tsoff = 0, !.tsgap = 0, !.meta = 99, !.data = [i \in 1..b - a |-> f.data[a + i]],
                           !.reg0 = (f.reg0 /\ (a = 0 \/ \A j \in 1..f.F : (f.data[a + 1][j] % 250000) % 1000 = f.lo + j - 1))] IN
        objs' = Append(objs, g @@ [wf |-> TRUE])
     /\ last' = [st |-> "ok"] /\ UNCHANGED files
@@ -205,6 +220,8 @@ Next == \/ Done
         \/ \E o \in Os : Rebind(o)
         \/ \E o \in Os, x \in SliceArgs, form \in {"pos", "negl", "negr", "negboth"} : Slice(o, x[1], x[2], form)
         \/ \E o \in Os, q \in DriftArgs : Dedrift(o, q)
+        \/ \E o \in Os : DedriftMeta(o)
+        \/ \E o \in Os, q \in {-3, 0} : SetMeta(o, q)
         \/ \E o \in Os, axis \in {"t", "f"} : Integrate(o, axis)
         \/ \E o \in Os, fmt \in {"fil", "h5"} : Save(o, fmt)
         \/ \E o \in Os, fmt \in {"fil", "h5"} : SaveFail(o, fmt)
